@@ -138,7 +138,8 @@ def colStyle (cols : List (ColD CAtt)) (x : Int) : Option String :=
   match findCol cols x with | some c => c.att.style | none => none
 
 -- models worksheet.rs::set_column_width_and_style (walk the sorted descriptors, overwrite an exact single-column
--- match, split a covering descriptor — keeping the *descriptor's* style, as the code does — or insert)
+-- match, split a covering descriptor — the new single-column descriptor takes the requested width, hidden flag
+-- and style (repaired code, fix F29a), the two remainders keep the old attributes — or insert)
 def setColAtt (cols : List (ColD CAtt)) (column : Int) (w : Int) (hidden : Bool) (style : Option String) :
     List (ColD CAtt) :=
   let wOpt : Option Int := if w = 90 then none else some w
@@ -150,7 +151,7 @@ def setColAtt (cols : List (ColD CAtt)) (column : Int) (w : Int) (hidden : Bool)
         else
           let pre := if column ≠ c.min then [{ c with max := column - 1 }] else []
           let post := if column ≠ c.max then [{ c with min := column + 1 }] else []
-          pre ++ [⟨column, column, ⟨wOpt, hidden, c.att.style⟩⟩] ++ post ++ rest
+          pre ++ [⟨column, column, ⟨wOpt, hidden, style⟩⟩] ++ post ++ rest
       else if column < c.min then ⟨column, column, ⟨wOpt, hidden, style⟩⟩ :: c :: rest
       else c :: go rest
   go cols
